@@ -45,6 +45,26 @@ Theorem C14_collect_sources : forall bs k brs,
 Proof. exact collect_sources. Qed.
 Print Assumptions C14_collect_sources.
 
+(** Name, branch list and content of a document: the content is the blob seen through Builder.Add's skip rules
+    ([builder_view], characterised by C15_builder_view_cases below: the blob itself when it is text of >= 3 bytes or empty and not
+    too large; otherwise the explanation marker), a LargeFiles match lifting the size limit. *)
+Theorem C14_doc_content : forall size_max large_ok blobs path id brs c,
+  lookup_blob id blobs = Some c ->
+  let d := doc_gogit size_max large_ok blobs ((path, id), brs) in
+  gd_name d = path /\ gd_branches d = brs /\
+  gd_content d = builder_view (if large_ok path then length c else size_max) c.
+Proof. exact doc_gogit_content. Qed.
+Print Assumptions C14_doc_content.
+
+Theorem C14_content_is_blob_or_skip_reason : forall size_max c,
+  (size_max < length c -> builder_view size_max c = marker_too_large) /\
+  (length c <= size_max -> c = [] -> builder_view size_max c = []) /\
+  (length c <= size_max -> 1 <= length c < 3 -> builder_view size_max c = marker_too_small) /\
+  (length c <= size_max -> 3 <= length c -> In 0%N c -> builder_view size_max c = marker_binary) /\
+  (length c <= size_max -> 3 <= length c -> ~ In 0%N c -> builder_view size_max c = c).
+Proof. exact builder_view_cases. Qed.
+Print Assumptions C14_content_is_blob_or_skip_reason.
+
 (** The cat-file reader, on every well-formed response stream and EVERY plan of Next / Read(len) calls with
     every chunking of the pipe (hand-over amounts >= 1), behaves as the abstract machine [abs_run] that keeps
     "the undelivered rest of the current blob" and "the responses not yet announced" ... *)
